@@ -50,6 +50,25 @@ def main(tier, seed):
         total += k
         rep.coverage["states"] = rep.coverage.get("states", 0) + max(stats["generated"], len(runs))
         rep.coverage["transitions"] = rep.coverage.get("transitions", 0) + stats["generated"]
+    # allocation-heavy loops (several collections under the paced policy): no expectation from the machine (too long a run),
+    # every build must print the same
+    from checks.c16 import LOOPS
+    lcases = [{"id": "loop:" + k, "main": v % {"N": 4000 if tier == "quick" else 20000}, "gc": "default"} for k, v in LOOPS.items()]
+    lref = None
+    for bname, binary in bins:
+        obs = {}
+        for c, r in zip(lcases, Pool(binary, "run", timeout=300).map(lcases)):
+            total += 1
+            obs[c["id"]] = json.dumps(r.get("runs", r))[:2000] if "runs" in r else "crash: " + json.dumps({k: r[k] for k in r})[:300]
+            obs[c["id"]] = vlib.norm_addr(obs[c["id"]])
+        if lref is None:
+            lref = (bname, obs)
+        else:
+            for nme in obs:
+                strip = lambda t: __import__("re").sub(r'"state": \{[^}]*\}', "", t)
+                if strip(obs[nme]) != strip(lref[1][nme]):
+                    rep.violation("%s behaves differently on %s and %s: %s vs %s" % (nme, lref[0], bname, strip(lref[1][nme])[:300], strip(obs[nme])[:300]),
+                                  {"program": nme})
     # the repository's scripts: identical observable behaviour on every build (and the documented output)
     items, modules = vlib.corpus()
     cases = [{"id": nme, "main": src, "modules": modules, "gc": "default"} for nme, src, exp in items]
